@@ -561,7 +561,7 @@ func (d *Drv) Sweep(deep bool) {
 	// since the Reset (once the ID is in use again, an old ID/generation pair is indistinguishable from a current or
 	// future handle by design)
 	if m.Epoch0 > 0 {
-		maxID := uint32(0)
+		maxID := d.foreignMaxID
 		for i := m.Epoch0; i < len(d.H); i++ {
 			if !d.H[i].IsZero() && d.H[i].ID() > maxID {
 				maxID = d.H[i].ID()
